@@ -376,7 +376,7 @@ func TestVerifC08TokenSeq(t *testing.T) {
 	defer m.Done()
 	defer c08Wall(m, time.Now())
 	const workers = 6
-	n := vk.N(120, 2000)
+	n := vk.N(120, 1500)
 	var wg sync.WaitGroup
 	var next atomic.Int64
 	for w := 0; w < workers; w++ {
